@@ -136,9 +136,9 @@ CLAIMED = {
          TB + "PARTIAL: laws of the primitives; count-based clauses carry a freshness side condition; class constants re-read each run."),
  "C06": ("4/C06", "schedule-independence theorem + trace validation under forced schedules, real pools and hash seeds",
          "Theorems: for pure jobs with draws on the submitting thread, every execution order of the submitted jobs (any permutation, with re-executions) "
-         "yields the sequential results, order and random state; sensitivity: with draws inside the jobs two schedules differ. Tie: the pool of "
+         "yields the sequential results, order and random state; sensitivity: with draws inside the jobs two schedules differ; the one shared cell samples copy (best_window_size) written before the draws gives the sequential samples, an unread write is harmless, a worker's write that draws read is schedule-dependent. Tie: the pool of "
          "compute_gamma / gamma_cat / gamma_k is replaced by a recording executor forcing FIFO / LIFO / random / delayed orders on worker threads and by real "
-         "pools of 1, 2, 16 workers; np.random.* recorded: every draw on the submitting thread, collection in submission order, inputs unchanged, and all "
+         "pools of 1, 2, 7, 16 workers (processor count following), incl. fast-mode runs on continua large enough to be windowed; np.random.* recorded: every draw on the submitting thread, collection in submission order, inputs unchanged and never written from a worker thread, and all "
          "results bit-identical across schedules, repetition, and subprocesses with other PYTHONHASHSEED values.",
          TB + "PARTIAL: races inside native code and third-party nondeterminism cannot be exhibited by the model."),
  "C14": ("4/C14", "separation / confinement theorems on a heap model + before/after snapshots and mutation of derived objects",
